@@ -36,8 +36,8 @@ ASSUMPTIONS = ["metadata is compared key by key: JSON-native values equal, anyth
 PROBES = ["repeated_name", "nan_in_data", "inf_in_data", "float32_input", "actions_3d", "non_json_metadata",
           "e2e_solve", "e2e_greedy", "e2e_best_states", "history_5plus", "short_raw_writes"]
 TIERS = {
-    "quick": {"runs": 2500, "wall": 50, "batch": 4, "shrink_s": 40},
-    "thorough": {"runs": 200000, "wall": 1200, "batch": 8, "shrink_s": 150},
+    "quick": {"runs": 20000, "wall": 40, "batch": 8, "shrink_s": 40},
+    "thorough": {"runs": 3000000, "wall": 1200, "batch": 12, "shrink_s": 150},
 }
 
 
